@@ -39,7 +39,7 @@ fn injections(rng: &mut Rng, w: &mut World, d: &mut Driver) -> Vec<Inj> {
     let mut v = Vec::new();
     let open = d.open.clone();
     let ntx = d.ntx;
-    let (ts, hash) = open.clone().unwrap_or((w.ts + 1, format!("0x{:064x}", 0xc05_0000u64 + rng.below(1 << 30))));
+    let (ts, hash) = open.clone().unwrap_or((w.ts + 1, crate::hist::bh((0xc05_0000u64 + rng.below(1 << 30)) as u64)));
     let pk = w.pks[0].clone();
     let tool = w.tools.first().cloned().unwrap_or_else(|| "0x00000000000000000000000000000000000000aa".into());
     let data = hist::hx(&asm::tool_call(asm::OP_INC, &[asm::word_u64(9)], &[]));
@@ -52,16 +52,16 @@ fn injections(rng: &mut Rng, w: &mut World, d: &mut Driver) -> Vec<Inj> {
     if ntx > 0 {
         v.push(Inj { op: mk_call(ts, &hash, ntx - 1, format!("inj-{}-idxm1", u)), kind: "wrong-tx-idx", must_reject: true });
         v.push(Inj { op: mk_call(ts.wrapping_add(1), &hash, ntx, format!("inj-{}-ts", u)), kind: "other-timestamp", must_reject: true });
-        v.push(Inj { op: mk_call(ts, &format!("0x{:064x}", 0xdead_0000u64 + u), ntx, format!("inj-{}-hash", u)), kind: "other-hash", must_reject: true });
+        v.push(Inj { op: mk_call(ts, &crate::hist::bh((0xdead_0000u64 + u) as u64), ntx, format!("inj-{}-hash", u)), kind: "other-hash", must_reject: true });
         v.push(Inj { op: Op::Deposit { pk: pk.clone(), ticker: "inj".into(), amount: "0x1".into(), ctx: Ctx { ts: ts.wrapping_add(5), hash: hash.clone(), idx: ntx }, iid: format!("inj-{}-dep", u) }, kind: "other-timestamp", must_reject: true });
         v.push(Inj { op: Op::Finalise { ts, hash: hash.clone(), count: ntx + 1 }, kind: "finalise-wrong-count", must_reject: true });
         v.push(Inj { op: Op::Finalise { ts, hash: hash.clone(), count: ntx - 1 }, kind: "finalise-wrong-count", must_reject: true });
         v.push(Inj { op: Op::Finalise { ts: ts.wrapping_add(3), hash: hash.clone(), count: ntx }, kind: "finalise-other-timestamp", must_reject: true });
-        v.push(Inj { op: Op::Finalise { ts, hash: format!("0x{:064x}", 0xbeef_0000u64 + u), count: ntx }, kind: "finalise-other-hash", must_reject: true });
+        v.push(Inj { op: Op::Finalise { ts, hash: crate::hist::bh((0xbeef_0000u64 + u) as u64), count: ntx }, kind: "finalise-other-hash", must_reject: true });
         v.push(Inj { op: Op::Commit, kind: "commit-while-open", must_reject: true });
         v.push(Inj { op: Op::Reorg { n: (d.height - 1).max(0) as u64 }, kind: "reorg-while-open", must_reject: true });
         v.push(Inj { op: Op::Mine { n: 1, ts: 5 }, kind: "mine-while-open", must_reject: true });
-        v.push(Inj { op: Op::Init { hash: format!("0x{:064x}", 0xfeed_0000u64 + u), ts: 9, height: d.next_height() }, kind: "initialise-while-open", must_reject: true });
+        v.push(Inj { op: Op::Init { hash: crate::hist::bh((0xfeed_0000u64 + u) as u64), ts: 9, height: d.next_height() }, kind: "initialise-while-open", must_reject: true });
     } else {
         v.push(Inj { op: Op::Finalise { ts, hash: hash.clone(), count: 1 }, kind: "finalise-wrong-count", must_reject: true });
     }
@@ -73,10 +73,10 @@ fn injections(rng: &mut Rng, w: &mut World, d: &mut Driver) -> Vec<Inj> {
                 v.push(Inj { op: Op::Finalise { ts, hash: old, count: 0 }, kind: "existing-block-hash", must_reject: true });
             }
         }
-        v.push(Inj { op: Op::Init { hash: format!("0x{:064x}", 0xfeed_1000u64 + u), ts: 9, height: rng.range(0, d.height as u64) }, kind: "initialise-existing-height", must_reject: true });
+        v.push(Inj { op: Op::Init { hash: crate::hist::bh((0xfeed_1000u64 + u) as u64), ts: 9, height: rng.range(0, d.height as u64) }, kind: "initialise-existing-height", must_reject: true });
         if ntx == 0 {
-            v.push(Inj { op: Op::Init { hash: format!("0x{:064x}", 0xfeed_2000u64 + u), ts: 9, height: d.next_height() + rng.range(1, 5) }, kind: "initialise-not-next-height", must_reject: true });
-            v.push(Inj { op: Op::Init { hash: format!("0x{:064x}", 0xfeed_3000u64 + u), ts: 9, height: d.next_height() }, kind: "initialise-again", must_reject: true });
+            v.push(Inj { op: Op::Init { hash: crate::hist::bh((0xfeed_2000u64 + u) as u64), ts: 9, height: d.next_height() + rng.range(1, 5) }, kind: "initialise-not-next-height", must_reject: true });
+            v.push(Inj { op: Op::Init { hash: crate::hist::bh((0xfeed_3000u64 + u) as u64), ts: 9, height: d.next_height() }, kind: "initialise-again", must_reject: true });
             v.push(Inj { op: Op::Reorg { n: d.height as u64 + 1 }, kind: "reorg-above-height", must_reject: true });
         }
     }
